@@ -9,6 +9,8 @@ import (
 	"sort"
 
 	corev1 "k8s.io/api/core/v1"
+
+	"github.com/NVIDIA/KAI-scheduler/pkg/scheduler/framework"
 )
 
 type CapacityOracle struct {
@@ -17,6 +19,7 @@ type CapacityOracle struct {
 	as         string // report violations under this property id instead (C12 conservation)
 	prevExcess map[string]float64
 	prevGroups map[string]map[string]bool // node -> groups known after the previous step
+	groupsWhenFitting map[string]int      // node -> number of GPU groups when its pods last fitted its pod slots
 }
 
 func (o *CapacityOracle) Prop() string {
@@ -35,7 +38,42 @@ func (o *CapacityOracle) grew(key string, excess float64) bool {
 	return excess > prev+1e-9
 }
 
+// the scheduler-side DRA bookkeeping is watched too (only to classify API-level consequences, see AfterOp)
+func (o *CapacityOracle) watchDRA(r *Run, ssn *framework.Session) {
+	if o.prop != "C01" || !r.S.World.HasDRA() {
+		return
+	}
+	if l, g, d := draTrackerMismatch(ssn); len(l)+len(g)+len(d) > 0 {
+		r.draInconsistent = true
+		if len(d) > 0 {
+			r.draDouble = true
+		}
+	}
+}
+func (o *CapacityOracle) SessionOpen(r *Run, ssn *framework.Session)               { o.watchDRA(r, ssn) }
+func (o *CapacityOracle) AfterAction(r *Run, name string, ssn *framework.Session) { o.watchDRA(r, ssn) }
+func (o *CapacityOracle) Event(r *Run, ssn *framework.Session, ev *framework.Event, alloc bool) {
+	o.watchDRA(r, ssn)
+}
+
 func (o *CapacityOracle) AfterOp(r *Run, op Op) {
+	if o.prop == "C01" && r.S.World.HasDRA() {
+		// claimed devices (DRA): every device belongs to at most one claim, counting the allocations live BindRequests
+		// promise; a pod's claims hold devices of the pod's own node
+		for _, pr := range draViolations(r.API) {
+			if o.grew("dra/"+pr, 1) {
+				r.Probe("dra_violation_seen")
+				rule := "dra_device"
+				if r.draDouble || r.draInconsistent {
+					// the scheduler's own DRA bookkeeping (claim cache vs allocated-device set) had already fallen apart
+					// earlier in this run (C14 findings dra_device_*): the API-level consequence of that
+					rule += "_after_inconsistent_view"
+				}
+				r.Fail(o.Prop(), rule, "%s after op %v", pr, op)
+			}
+		}
+		r.Probe("dra_states_checked")
+	}
 	occ := Occupancy(r.API)
 	names := make([]string, 0, len(occ))
 	for n := range occ {
@@ -79,6 +117,12 @@ func (o *CapacityOracle) AfterOp(r *Run, op Op) {
 			if ex := float64(oc.MemB - mem); o.grew(name+"/mem", ex) && ex > 0 {
 				r.Fail(o.Prop(), "memory", "node %s memory %d > allocatable %d after op %v; pods=%v", name, oc.MemB, mem, op, oc.Members)
 			}
+			if oc.Pods <= pods {
+				if o.groupsWhenFitting == nil {
+					o.groupsWhenFitting = map[string]int{}
+				}
+				o.groupsWhenFitting[name] = len(oc.Groups)
+			}
 			if ex := float64(oc.Pods - pods); o.grew(name+"/pods", ex) && ex > 0 {
 				// attribute: is the excess explained by the pod slots of reservation pods of GPU groups
 				// opened in this very cycle (known finding), or not?
@@ -90,6 +134,11 @@ func (o *CapacityOracle) AfterOp(r *Run, op Op) {
 					}
 				}
 				if (op.Kind == "cycle" && newGroups > 0 && int(ex) <= newGroups) || (pendingRes > 0 && int(ex) <= pendingRes) {
+					rule = "podslots_reservation"
+				} else if opened := len(oc.Groups) - o.groupsWhenFitting[name]; (opened > 0 && int(ex) <= opened) || (op.Kind == "rbinder" && int(ex) <= len(oc.Groups)) {
+					// every slot in excess is the reservation pod of a GPU group opened since the node last fitted its pods
+					// (the groups may have been opened by several cycles, e.g. one of them in the middle of a bind: with a cycle
+					// nested in a binder step the node fits again as soon as the slots of its reservation pods are left out)
 					rule = "podslots_reservation"
 				}
 				r.Fail(o.Prop(), rule, "node %s pod slots %d > allocatable %d after op %v; pods=%v groups=%d new_groups_this_cycle=%d binds_this_cycle=%d terminating=%d",
